@@ -98,6 +98,52 @@ def gen_value(rng, depth=0):
     return d
 
 
+def gen_q_ops(rng, depth=0):
+    """a Q built the way model authors build them: keyword atoms combined with & | ~ (and ^)"""
+    from django.db.models import Q
+    def atom():
+        return Q(**{rng.choice(['a', 'b__gt', 'c__in', 'name', 'price__lte']): gen_scalar(rng, allow_list=True)})
+    q = atom() if depth >= 2 or rng.random() < 0.5 else gen_q_ops(rng, depth + 1)
+    for _ in range(rng.randint(0, 3)):
+        other = atom() if depth >= 2 or rng.random() < 0.6 else gen_q_ops(rng, depth + 1)
+        r = rng.random()
+        if r < 0.45:
+            q = q & other
+        elif r < 0.9:
+            q = q | other
+        else:
+            q = q ^ other
+        if rng.random() < 0.2:
+            q = ~q
+    return q
+
+
+def gen_expr_wide(rng, depth=0):
+    """expressions beyond + - *: other connectors and database functions"""
+    from django.db.models import F, Value
+    from django.db.models.functions import Lower, Upper
+    r = rng.random()
+    if r < 0.35:
+        return gen_expr(rng, depth)
+    if r < 0.5:
+        return Lower(rng.choice(['name', 'title'])) if rng.random() < 0.6 else Upper(F('name'))
+    lhs = gen_expr(rng, depth + 1)
+    k = rng.choice(['/', '%', '**', 'bitand', 'bitor', 'bitxor', 'lshift'])
+    if k == '/':
+        return lhs / 2
+    if k == '%':
+        return lhs % 3
+    if k == '**':
+        return lhs ** 2
+    if k == 'bitand':
+        return lhs.bitand(1)
+    if k == 'bitor':
+        return lhs.bitor(4)
+    if k == 'bitxor':
+        return lhs.bitxor(2)
+    return lhs.bitleftshift(1)
+
+
 def contains(absv, pred):
     if pred(absv):
         return True
